@@ -8,6 +8,8 @@
     substring_not_xpath ne_absent_not_xpath step_matches_eq_xp parser_rejects_outside
     select_eq_xp_step select_eq_xp_chain select_eq_xp_childpath select_eq_xp_union
     select_eq_xp_nonpositional select_eq_xp_union_nonpositional select_eq_xp_nonpositional_default select_eq_xp_kmp select_eq_xp_attribute select_eq_xp_attribute_step
+    select_eq_xp_fragments select_eq_xp_fragments_default pattern_matches_eq_xp_fragments
+    select_eq_xp_simple_spellings select_eq_xp_simple_spellings_default
     select_eq_xp_chain_attribute select_eq_xp_chain_attribute_default
     pattern_matches_eq_xp
     parser_accepts_subset_partial parser_accepts_steps_partial
@@ -28,6 +30,8 @@ import Genshi.Lemmas.PathUnion
 import Genshi.Lemmas.PathNonPos
 import Genshi.Lemmas.PathAttr
 import Genshi.Lemmas.PathSimpleAttr
+import Genshi.Lemmas.PathFrags
+import Genshi.Lemmas.PathFragsSelf
 import Genshi.Lemmas.PathKmpRun
 namespace Genshi.Props.C05
 open Genshi Genshi.Path
@@ -798,6 +802,123 @@ example : select [Kmp.fragPath .descendantOrSelf [.localName false ['a'], .local
        Node.elem ⟨[], ['b']⟩ [] []]).flatten
     = [.ev (.start ⟨[], ['b']⟩ []), .ev (.end_ ⟨[], ['b']⟩), .ev (.start ⟨[], ['b']⟩ []), .ev (.end_ ⟨[], ['b']⟩)] := by
   decide +kernel
+
+/-! ## SimplePathStrategy on paths with several fragments -/
+
+/-- **select_eq_xp** under SimplePathStrategy for every fragment list.  Let `frags` be any
+    list of fragments as `SimplePathStrategy.__init__` builds them (`Frags.FragsOk`: a
+    context-bound first fragment `child::t1/…` or `self::t1/child::t2/…`, or none when the path
+    starts with `descendant::` / `descendant-or-self::`; any number of further fragments
+    entered through `descendant::` or `descendant-or-self::`; name / `text()` / `comment()`
+    tests) and `Frags.normPath frags` the location path with these fragments
+    (`a/descendant::b/c`, `descendant::a/descendant::b`, `self::a/b/descendant-or-self::c/d`,
+    …).  Then for every element tree `Path.select` run by SimplePathStrategy delivers exactly
+    `Ref.xpSelect`: the outermost nodes of the XPath node set, in document order, with their
+    subtrees.  (`Frags.simple_marks`: the matcher's stack entries read through the reference
+    semantics, KMP for the longest matched prefix, the domination lemma `semIc_dom` for the
+    hand-over between fragments; then `select_union`.)  No hypothesis on names or attributes:
+    only that leaves are not START / END / marker events. -/
+theorem select_eq_xp_fragments (frags : List Frag) (hok : Frags.FragsOk frags) (ns : NsMap) (vs : Vars)
+    (tag : QName) (attrs : AttrList) (kids : List Node)
+    (hcl : (Node.elem tag attrs kids).clean = true) :
+    select [Frags.normPath frags] ns vs (Node.elem tag attrs kids).flatten (some .simple)
+      = Ref.xpSelect [Frags.normPath frags] ns (toXVars vs) (.elem tag attrs kids) := by
+  have hkcl : cleanList kids = true := by simpa [Node.clean] using hcl
+  have hrok : (Node.elem tag attrs kids).ok = true := ok_of_clean _ hcl
+  have hok' : okList kids = true := by simpa [Node.ok] using hrok
+  unfold select
+  simp only [pathTest, List.map_cons, List.map_nil, mkMatcher]
+  exact select_union ns vs (toXVars vs) tag attrs kids hok' [Frags.normPath frags] _ _
+    (.cons (Frags.operand_simple_frags ns vs frags hok tag attrs kids hkcl) .nil)
+
+/-- the same with the strategy `Path.__init__` picks by itself (paths of two or more steps) -/
+theorem select_eq_xp_fragments_default (frags : List Frag) (hok : Frags.FragsOk frags)
+    (h2 : 2 ≤ (Frags.normPath frags).length) (ns : NsMap) (vs : Vars)
+    (tag : QName) (attrs : AttrList) (kids : List Node)
+    (hcl : (Node.elem tag attrs kids).clean = true) :
+    select [Frags.normPath frags] ns vs (Node.elem tag attrs kids).flatten
+      = Ref.xpSelect [Frags.normPath frags] ns (toXVars vs) (.elem tag attrs kids) := by
+  have h := select_eq_xp_fragments frags hok ns vs tag attrs kids hcl
+  unfold select at h ⊢
+  simp only [pathTest, List.map_cons, List.map_nil, Frags.chooses_simple frags hok h2, Option.getD_some] at h ⊢
+  exact h
+
+-- non-vacuity: `a/descendant::b/c` on <r><a><x><b><c/></b></x></a><b><c/></b></r> selects the first <c/> only
+example : Frags.FragsOk [⟨[.localName false ['a']], [0], none, false⟩,
+    ⟨[.localName false ['b'], .localName false ['c']], [0, 0], none, false⟩] := Frags.fragsOk_of_B _ (by decide)
+example : select [Frags.normPath [⟨[.localName false ['a']], [0], none, false⟩,
+      ⟨[.localName false ['b'], .localName false ['c']], [0, 0], none, false⟩]] [] []
+    (Node.elem ⟨[], ['r']⟩ [] [
+      Node.elem ⟨[], ['a']⟩ [] [Node.elem ⟨[], ['x']⟩ [] [Node.elem ⟨[], ['b']⟩ [] [Node.elem ⟨[], ['c']⟩ [] []]]],
+      Node.elem ⟨[], ['b']⟩ [] [Node.elem ⟨[], ['c']⟩ [] []]]).flatten
+    = [.ev (.start ⟨[], ['c']⟩ []), .ev (.end_ ⟨[], ['c']⟩)] := by decide +kernel
+
+/-- **Patterns under SimplePathStrategy** (`Path.test(ignore_context=True)` of a path
+    `Path.__init__` hands to SimplePathStrategy, i.e. what a match template with such a path
+    runs): for the path of every fragment list the matcher reports `True` exactly at the nodes
+    `descendant-or-self::first/rest` (`Frags.patPath`) selects from the root of the stream. -/
+theorem pattern_matches_eq_xp_fragments (frags : List Frag) (hok : Frags.FragsOk frags) (ns : NsMap) (vs : Vars)
+    (tag : QName) (attrs : AttrList) (kids : List Node)
+    (hcl : (Node.elem tag attrs kids).clean = true) (x : Ref.LNode) :
+    selB (runTest (pathTest [Frags.normPath frags] true (some .simple)).1 ns vs
+            (pathTest [Frags.normPath frags] true (some .simple)).2 (Node.elem tag attrs kids).flatten)
+         (eventLocs (.elem tag attrs kids) []) x.loc
+      = Ref.reach ns (toXVars vs) (Frags.patPath frags) ⟨[], .elem tag attrs kids⟩ x := by
+  have hkcl : cleanList kids = true := by simpa [Node.clean] using hcl
+  simp only [pathTest, List.map_cons, List.map_nil, mkMatcher]
+  rw [Frags.runTest_simpleL, Frags.fragments_normPath frags hok]
+  exact Bool.eq_iff_iff.mpr ((Frags.simple_marks_pattern ns (toXVars vs) frags hok tag attrs kids hkcl).2 x)
+
+/-- **select_eq_xp** under SimplePathStrategy for every spelling it supports without an
+    attribute step: ANY non-empty path over the child / descendant / descendant-or-self / self
+    axes (in any order, `self::` steps anywhere) with name / `text()` / `comment()` tests and no
+    predicates.  `Path.select` with the fragments `__init__` computes delivers `Ref.xpSelect`
+    (`t/self::t` is merged, `t/self::u` selects nothing — in XPath too:
+    `Frags.fragments_sem`). -/
+theorem select_eq_xp_simple_spellings (p : LocPath) (hp : ∀ s ∈ p, Frags.SStep s) (hne : p ≠ [])
+    (ns : NsMap) (vs : Vars) (tag : QName) (attrs : AttrList) (kids : List Node)
+    (hcl : (Node.elem tag attrs kids).clean = true) :
+    select [p] ns vs (Node.elem tag attrs kids).flatten (some .simple)
+      = Ref.xpSelect [p] ns (toXVars vs) (.elem tag attrs kids) := by
+  have hkcl : cleanList kids = true := by simpa [Node.clean] using hcl
+  have hrok : (Node.elem tag attrs kids).ok = true := ok_of_clean _ hcl
+  have hok' : okList kids = true := by simpa [Node.ok] using hrok
+  unfold select
+  simp only [pathTest, List.map_cons, List.map_nil, mkMatcher]
+  exact select_union ns vs (toXVars vs) tag attrs kids hok' [p] _ _
+    (.cons (Frags.operand_simple_supported ns vs p hp hne tag attrs kids hkcl) .nil)
+
+theorem simpleSupports_of_sstep (p : LocPath) (hp : ∀ s ∈ p, Frags.SStep s) (hne : p ≠ []) :
+    simpleSupports p = true := by
+  cases p with
+  | nil => exact absurd rfl hne
+  | cons s0 rest =>
+    simp only [simpleSupports, Bool.and_eq_true, List.all_eq_true, bne_iff_ne, ne_eq]
+    refine ⟨(hp s0 List.mem_cons_self).2.2, fun s hs => ?_⟩
+    obtain ⟨h1, h2, _⟩ := hp s hs
+    rcases Kmp.simpleT_cases s.test h2 with ⟨n, h⟩ | h | h <;> simp [h1, h]
+
+/-- the same with the strategy `Path.__init__` picks by itself (two or more steps) -/
+theorem select_eq_xp_simple_spellings_default (p : LocPath) (hp : ∀ s ∈ p, Frags.SStep s) (h2 : 2 ≤ p.length)
+    (ns : NsMap) (vs : Vars) (tag : QName) (attrs : AttrList) (kids : List Node)
+    (hcl : (Node.elem tag attrs kids).clean = true) :
+    select [p] ns vs (Node.elem tag attrs kids).flatten
+      = Ref.xpSelect [p] ns (toXVars vs) (.elem tag attrs kids) := by
+  have hne : p ≠ [] := by intro h; rw [h] at h2; simp at h2
+  have h := select_eq_xp_simple_spellings p hp hne ns vs tag attrs kids hcl
+  have ho : strategyOrder = [.single, .simple, .generic] := by decide
+  have h1 : singleSupports p = false := by unfold singleSupports; exact beq_false_of_ne (by omega)
+  have hc : chooseStrategy p = some .simple := by
+    simp [chooseStrategy, ho, List.find?, Strategy.supports, h1, simpleSupports_of_sstep p hp hne]
+  unfold select at h ⊢
+  simp only [pathTest, List.map_cons, List.map_nil, hc, Option.getD_some] at h ⊢
+  exact h
+
+-- non-vacuity: `descendant::a/self::a/b` on <r><a><b/></a><b/></r> selects the inner <b/>
+example : select [[⟨.descendant, .localName false ['a'], []⟩, ⟨.self, .localName false ['a'], []⟩,
+                   ⟨.child, .localName false ['b'], []⟩]] [] []
+    (Node.elem ⟨[], ['r']⟩ [] [Node.elem ⟨[], ['a']⟩ [] [Node.elem ⟨[], ['b']⟩ [] []], Node.elem ⟨[], ['b']⟩ [] []]).flatten
+    = [.ev (.start ⟨[], ['b']⟩ []), .ev (.end_ ⟨[], ['b']⟩)] := by decide +kernel
 
 /-! ## Stage 3 for attributes: paths that end in an attribute step -/
 
